@@ -19,6 +19,8 @@ func main() {
 		cmdCheck(os.Args[2:])
 	case "sweep":
 		cmdSweep()
+	case "calls":
+		cmdCalls()
 	default:
 		fmt.Fprintln(os.Stderr, "unknown command")
 		os.Exit(2)
